@@ -153,6 +153,16 @@ def run(chk, prog):
     dsv = ds.subs(arg[0], cpos).subs(pos)
     chk.check(dsv.is_negative is True, "R4", A.loc(rf, {"line": sin["line"]}),
               "sinusoidal RF: slope at the synchronous point is negative like the linear model's -tan(a) (d/dx = %s)" % ds, "RF:sin-slope-sign")
+    # ---- R3 (continued): the kick machinery maps a zero offset onto the cell itself ---------------------------
+    # the RF offset formula above vanishes at the zero bin, but the rotation centre is only there if KickMap turns offset 0 into
+    # "take cell y from cell y": the centre that updateSM adds and the one apply subtracts are decided under C01/R2, re-evaluated here
+    from . import C01 as c01
+    sub = type(chk)("C01", chk.tier)
+    c01.run(sub, prog)
+    r = [i for i in sub.instances if i["rule"] == "R2" and "KickMap" in i["site"]]
+    for i in r:
+        chk.check(i["ok"], "R3", i["site"], "(C01/R2) %s" % i["what"].split("\n")[0][:220], "C01-R2:%s" % i.get("key", "ok"))
+    chk.floor("R3-kick-centre", len(r), 6)
     chk.notes.append("C03: linearised one-step kick-drift map read off the folded offset formulas: slopes, coupling product -a^2+O(a^4), sense, "
                      "single angle variable, equal cell sizes, centres at the zero bins. NOT decided: closure over a period, splitting-error size, "
                      "sinusoidal RF beyond the sign of its slope, DynamicRFKickMap (C19).")
